@@ -206,6 +206,8 @@ def random_case(draw):
     opts = []
     if ff == "PARSE":  # neutral termini (PARSE only) combined with titration of the terminal residues
         opts = draw(st.sampled_from([[], [], ["--neutralc"], ["--neutraln"], ["--neutraln", "--neutralc"]]))
+    # titration combined with the optimisation / debumping switches
+    opts = opts + draw(st.sampled_from([[], [], [], ["--noopt"], ["--nodebump"], ["--nodebump", "--noopt"]]))
     return dict(part="random", chain=ch, pka=pka, phs=sorted(set(phs)), ff=ff, opts=opts)
 
 
